@@ -1,4 +1,5 @@
 import Proofs.Lemmas.Ctx
+import Proofs.Properties.C07
 /-!
 # C08 — the incrementally maintained epochs context always matches the state
 
@@ -233,6 +234,98 @@ theorem ctx_reads_in_range {cfg : Config} {N : Nat} {st0 st : State} {c : Ctx}
     have := proposersOf_mem h4 i hi
     rw [(shufflingOf_fields h1).2] at this
     exact key _ (by omega) i this
+
+/-! ## Composition with C07: the context's answers are the specification's answers for the state -/
+
+/-- **The context of a state answers with the specification's committees and proposers.** Every committee held by
+`ctxOf cfg st` for a slot of the previous, current or next epoch is `get_beacon_committee(state, slot, index)`, and
+every proposer it holds for a slot of the current epoch is `get_beacon_proposer_index` at that slot — the literal
+functions of `Zrnt.Beacon.Committees.Spec`, C07's oracle, evaluated on the state's registry and randao mixes.
+Together with `chain_ctx_invariant` (live context = `ctxOf` of the current state) this says: the answers of the live
+context along a chain are the specification's answers for the current state. -/
+theorem ctx_answers_eq_spec {cfg : Config} {st : State} {c : Ctx} (hspe : 0 < cfg.SLOTS_PER_EPOCH)
+    (hc : ctxOf cfg st = .ok c) :
+    (∀ sh ∈ [c.prev, c.cur, c.next], ∀ s index, s < cfg.SLOTS_PER_EPOCH →
+      index < Committees.Spec.get_committee_count_per_slot (cfgC cfg) (valsC st) sh.epoch →
+      ∃ committee, sh.committees[s]?.bind (·[index]?) = some committee ∧
+        Committees.Spec.get_beacon_committee Spec.hash (cfgC cfg) (valsC st) (mixesC st)
+          (sh.epoch * cfg.SLOTS_PER_EPOCH + s) index = .ok committee) ∧
+    (∀ s, s < cfg.SLOTS_PER_EPOCH → ∃ r, c.proposers.proposers[s]? = some r ∧
+      Committees.Spec.get_beacon_proposer_index Spec.hash (cfgC cfg) (valsC st) (mixesC st)
+        (get_current_epoch cfg st * cfg.SLOTS_PER_EPOCH + s) 32000 = .ok r) := by
+  obtain ⟨h1, h2, h3, h4, _⟩ := ctxOf_ok hc
+  refine ⟨?_, ?_⟩
+  · intro sh hsh s index hs hi
+    simp only [List.mem_cons, List.mem_nil_iff, or_false] at hsh
+    rcases hsh with rfl | rfl | rfl
+    · rw [(shufflingOf_fields h2).1] at hi ⊢
+      exact shufflingOf_committee_eq_spec hspe h2 s index hs hi
+    · rw [(shufflingOf_fields h1).1] at hi ⊢
+      exact shufflingOf_committee_eq_spec hspe h1 s index hs hi
+    · rw [(shufflingOf_fields h3).1] at hi ⊢
+      exact shufflingOf_committee_eq_spec hspe h3 s index hs hi
+  · intro s hs
+    rw [(shufflingOf_fields h1).2] at h4
+    exact proposersOf_eq_spec hspe h4 s hs
+
+open Zrnt.Proofs.Committees in
+/-- **C08 ∘ C07.** Take any context `c` with `ctxOf cfg st = .ok c` (by `chain_ctx_invariant`: the live context at any
+point of a chain) and C07's code-shaped model `cM` of zrnt's `NewEpochsContext` on the same registry, mixes and slot.
+Then zrnt's lookups on `cM` — `GetBeaconCommittee` for every slot of the previous, current and next epoch and every
+committee index, `GetBeaconProposer` for every slot of the current epoch — return exactly what `c` holds. Hence
+what the incrementally maintained context answers is what a from-scratch zrnt context answers, and both are the
+specification's `get_beacon_committee` / `get_beacon_proposer_index` (`ctx_answers_eq_spec`, C07
+`ctx_committee_eq_spec`, `ctx_proposer_eq_spec_partial`). `hH`: the hash returns 32 bytes (true of SHA-256; the
+transcription in `Zrnt/Sha256.lean` is not proved to, so it is a hypothesis here as in C06/C07). -/
+theorem live_ctx_answers_eq_zrnt_ctx {cfg : Config} {st : State} {c : Ctx}
+    (hH : ∀ x, (Spec.hash x).size = 32) (ok : CfgOK (cfgC cfg)) (hsrc : cfg.SHUFFLE_ROUND_COUNT ≤ 255)
+    (hmaxc : 0 < cfg.MAX_COMMITTEES_PER_SLOT) (hv : st.validators.length ≤ 2 ^ 40)
+    (hc : ctxOf cfg st = .ok c)
+    (cM : Committees.Ctx)
+    (hM : Committees.newEpochsContext Spec.hash (cfgC cfg) (valsC st).toArray (mixesC st) st.slot = .ok cM) :
+    (∀ sh ∈ [c.prev, c.cur, c.next], ∀ s index, s < cfg.SLOTS_PER_EPOCH →
+      index < Committees.Spec.get_committee_count_per_slot (cfgC cfg) (valsC st) sh.epoch →
+      ∃ committee, sh.committees[s]?.bind (·[index]?) = some committee ∧
+        cM.getBeaconCommittee (cfgC cfg) (sh.epoch * cfg.SLOTS_PER_EPOCH + s) index = .ok committee) ∧
+    (∀ s, s < cfg.SLOTS_PER_EPOCH → ∃ r, c.proposers.proposers[s]? = some r ∧
+      cM.getBeaconProposer (cfgC cfg) (get_current_epoch cfg st * cfg.SLOTS_PER_EPOCH + s) = .ok r) := by
+  have hspe : 0 < cfg.SLOTS_PER_EPOCH := ok.spe_pos
+  obtain ⟨hcomm, hprop⟩ := ctx_answers_eq_spec hspe hc
+  obtain ⟨h1, h2, h3, _⟩ := ctxOf_ok hc
+  have hsz : (valsC st).toArray.size ≤ 2 ^ 40 := by simp [valsC, hv]
+  have hcur : get_current_epoch cfg st = st.slot / (cfgC cfg).SLOTS_PER_EPOCH := rfl
+  refine ⟨?_, ?_⟩
+  · intro sh hsh s index hs hi
+    obtain ⟨committee, hget, hspec⟩ := hcomm sh hsh s index hs hi
+    refine ⟨committee, hget, ?_⟩
+    have hep : sh.epoch = st.slot / (cfgC cfg).SLOTS_PER_EPOCH - 1 ∨ sh.epoch = st.slot / (cfgC cfg).SLOTS_PER_EPOCH ∨
+        sh.epoch = st.slot / (cfgC cfg).SLOTS_PER_EPOCH + 1 := by
+      simp only [List.mem_cons, List.mem_nil_iff, or_false] at hsh
+      rcases hsh with rfl | rfl | rfl
+      · left
+        rw [(shufflingOf_fields h2).1, ← hcur]
+        unfold get_previous_epoch
+        dsimp only [GENESIS_EPOCH]
+        by_cases h0 : get_current_epoch cfg st = 0 <;> simp [h0]
+      · right; left; rw [(shufflingOf_fields h1).1, hcur]
+      · right; right; rw [(shufflingOf_fields h3).1, hcur]
+    have := Zrnt.Proofs.C07.ctx_committee_eq_spec hH ok hsrc hmaxc (valsC st).toArray (mixesC st) st.slot hsz cM hM
+      sh.epoch hep s index hs (by simpa using hi)
+    rw [show (cfgC cfg).SLOTS_PER_EPOCH = cfg.SLOTS_PER_EPOCH from rfl] at this
+    rw [this]
+    simpa using hspec
+  · intro s hs
+    obtain ⟨r, hget, hspec⟩ := hprop s hs
+    refine ⟨r, hget, ?_⟩
+    obtain ⟨p, hp, hps⟩ := Zrnt.Proofs.C07.ctx_proposer_eq_spec_partial hH ok hsrc (valsC st).toArray (mixesC st) st.slot hsz cM hM
+      s hs 0
+    rw [show (cfgC cfg).SLOTS_PER_EPOCH = cfg.SLOTS_PER_EPOCH from rfl] at hp hps
+    rw [hcur, show (cfgC cfg).SLOTS_PER_EPOCH = cfg.SLOTS_PER_EPOCH from rfl] at hspec
+    simp only [Nat.add_zero, List.toList_toArray] at hps
+    rw [hps] at hspec
+    cases hspec
+    rw [hcur, show (cfgC cfg).SLOTS_PER_EPOCH = cfg.SLOTS_PER_EPOCH from rfl]
+    exact hp
 
 /-- non-vacuity: a state is related to itself (nothing written), for every epoch -/
 example (cfg : Config) (N : Nat) (st : State) : EpochWrites cfg N st st where
